@@ -50,7 +50,7 @@ def make(name, props, relpath, pairs, why=''):
         shutil.rmtree(d, ignore_errors=True)
 
 
-def run(names, runs=None, tests=False, tier='quick'):
+def run(names, runs=None, tests=False, tier='quick', replay=True):
     idx = load_index()
     names = names or sorted(idx)
     results = {}
@@ -80,6 +80,23 @@ def run(names, runs=None, tests=False, tier='quick'):
                 res[pid] = f'rc={r.returncode} {tag} {time.time()-t0:.0f}s'
                 if r.returncode == 2:
                     res[pid] += ' ' + r.stdout[-300:]
+                # the minimised replay file must fail the same way in a fresh
+                # process on the mutated tree and pass on the clean tree
+                rp = None
+                for line in r.stdout.splitlines():
+                    if line.startswith('VIOLATION ') and 'replay=' in line:
+                        rp = line.split('replay=')[1].strip(); break
+                if rp and replay:
+                    rcmd = [PY, '-B', os.path.join(HERE, 'dsim', 'cli.py'), 'replay', rp]
+                    r1 = subprocess.run(rcmd, capture_output=True, text=True, env=env, cwd=HERE)
+                    t1 = ''
+                    for line in r1.stdout.splitlines():
+                        if line.strip().startswith('tag='):
+                            t1 = line.strip().split()[0]; break
+                    env2 = dict(os.environ); env2.pop('VERIF_REPO', None)
+                    r2 = subprocess.run(rcmd, capture_output=True, text=True, env=env2, cwd=HERE)
+                    ok = r1.returncode == 1 and t1 == tag and r2.returncode == 0
+                    res[pid] += f' replay:{"ok" if ok else f"BAD(mut rc={r1.returncode} {t1}; clean rc={r2.returncode})"}'
             results[name] = res
             print(name, res, flush=True)
         finally:
